@@ -57,7 +57,8 @@ PROPS = {
     "C02": P("C02", ["LSProofs.Props.C02"], ["text", "len", "ptr", "kind", "handles"],
              [fam("ladder", n=400), RANDOM_Q, ENUM_Q], [fam("ladder", n=4000), RANDOM_T, ENUM_T], GUARDS),
     "C03": P("C03", ["LSProofs.Props.C03"], ["ev", "rc", "handles"],
-             [RANDOM_Q, ENUM_Q, fam("ladder", n=300)], [RANDOM_T, ENUM_T, fam("ladder", n=3000)], GUARDS),
+             [RANDOM_Q, ENUM_Q, fam("ladder", n=300), fam("threads", n=100, scripted=False)],
+             [RANDOM_T, ENUM_T, fam("ladder", n=3000), fam("threads", n=1500, scripted=False)], GUARDS),
     "C04": P("C04", ["LSProofs.Props.C04"], None,
              [fam("threads", n=200, scripted=False)], [fam("threads", n=3000, scripted=False)], ["atomicSites", "callOrder", "atomicOrdCodes"],
              search=[fam("threads", n=2000, scripted=False)], scripted=False),
